@@ -235,3 +235,129 @@ def run_standard(terminal_values, product, df=DF, controls=None, control_prices=
     eng = StdEngine(configuration=cfg, process=FakeProcess(terminal_values, df=df, log=log))
     stats = eng.price(product)
     return dict(stats=stats, log=log, engine=eng)
+
+
+# ------------------------------------------------------------------------------------------------ additions for C05/C06
+# (new helpers only; nothing above is changed)
+def fine_value_v(l, k):
+    """richer (non-monotone in k) dyadic values for the control-variate probes: 16 l + ((37 k + 11) mod 64)/16"""
+    return 16.0 * l + ((37 * k + 11) % 64) / 16.0
+
+
+def coarse_value_v(l, k):
+    return 16.0 * l - 8.0 + ((29 * k + 5) % 64) / 32.0
+
+
+class FakeCouplingV(FakeCoupling):
+    """FakeCoupling with the values `fine_value_v` / `coarse_value_v` (mirrored by `procV` of lean/Drivers/C05.lean)"""
+
+    def __deepcopy__(self, memo):
+        c = FakeCouplingV(self.log)
+        c.level, c.count = self.level, self.count
+        return c
+
+    def simulate_one_path(self):
+        k = self.count
+        self.count += 1
+        self.log.append(("sim", self.level, k))
+        return StochasticJumpPath(np.array([0.0, T]), np.array([0.0, fine_value_v(self.level, k)]), np.zeros(2))
+
+    def simulate_one_path_with_coupling(self):
+        k = self.count
+        self.count += 1
+        self.log.append(("sim", self.level, k))
+        diff = np.array([[0.0, fine_value_v(self.level, k)], [0.0, coarse_value_v(self.level, k)]])
+        return StochasticJumpPath(np.array([0.0, T]), diff, np.zeros((2, 2)))
+
+
+def control_value(kind, par, s):
+    """payoff functions of the scripted control variates (mirrored by `ctlVal` of lean/Drivers/C05.lean)"""
+    m = s % 8.0
+    if kind == "sq":
+        return m * m
+    if kind == "call":
+        return max(m - par, 0.0)
+    return s - par                      # "fwd"
+
+
+def make_controls(specs):
+    """specs: list of (kind, par, notional, price) -> ControlVariates with scalar prices"""
+    prods = [Product(payoff_underlying=Spot(), payoff=PayoffOnTheFly(lambda x, kind=kind, par=par: control_value(kind, par, float(x))),
+                     maturity=T, notional=notional) for kind, par, notional, _ in specs]
+    return ControlVariates(products=prods, prices=[float(pr) for _, _, _, pr in specs])
+
+
+def snapshot_cv(engine):
+    """`snapshot` + the control arrays, the adjusted arrays and the price with control variates"""
+    snap = snapshot(engine)
+    st = engine.statistics
+    snap["xrows"] = [np.array(ms._control_variates_statistics.stats, dtype=float).copy() for ms in st.mc_statistics]
+    snap["adj"] = [np.array(ms._payoff_statistics_with_cv.stats, dtype=float).copy() for ms in st.mc_statistics]
+    snap["price_cv"] = float(np.ravel(st.price())[0])
+    return snap
+
+
+def run_mlmc_hooked(history, L0, N0, level_max, coupling=None, product=None, control_variates=None, snap_fn=snapshot,
+                    rates=(1.0, 2.0, 1.0), engine=None):
+    """`run_mlmc` (one process, unseeded) that additionally records in `calls` the arguments the engine hands to the criteria
+    callbacks — ("mc_paths", vl, cl) for every `compute_mc_paths` call and ("criteria", alpha, ml) for every `criteria` call —
+    and the engine's own `Nl`/`dNl` bookkeeping is observable through the snapshots taken with `snap_fn` at every read point.
+    `engine`: an EXISTING engine object (built by an earlier call) to be re-configured through its public configuration attributes
+    and priced again (`engine reuse` histories); its coupling's log is emptied first."""
+    log, reads, calls = [], [], []
+    if engine is not None:
+        log = engine.coupling_process.log
+        del log[:]
+    st = {"i": 0, "state": "idle"}
+    holder = {}
+
+    def fit(ns, n):
+        ns = list(ns) + [0] * max(0, n - len(ns))
+        return np.array(ns[:n], dtype=int)
+
+    def compute_mc_paths(rmse, vl, cl):
+        if st["state"] == "crit_done":
+            calls.append(("mc_paths2", [float(x) for x in vl], [float(x) for x in cl]))
+            ns = history[st["i"]][2]
+            st["i"] += 1
+            st["state"] = "idle"
+            return fit(ns, len(vl))
+        if st["state"] == "first_done":
+            st["i"] += 1
+        if st["i"] >= len(history):
+            raise Exhausted()
+        calls.append(("mc_paths", [float(x) for x in vl], [float(x) for x in cl]))
+        snap = snap_fn(holder["engine"])
+        snap["loglen"] = len(log)
+        reads.append(snap)
+        st["state"] = "first_done"
+        return fit(history[st["i"]][0], len(vl))
+
+    def criteria(alpha, ml, rmse):
+        calls.append(("criteria", float(alpha), [float(x) for x in ml]))
+        st["state"] = "crit_done"
+        return bool(history[st["i"]][1])
+
+    if engine is not None:
+        from rpylib.product.product import NoControlVariates
+        eng, cfg = engine, engine.configuration
+        cfg.convergence_rates = ConvergenceRates(alpha=rates[0], beta=rates[1], gamma=rates[2])
+        cfg.convergence_criteria = ConvergenceCriteria(criteria=criteria, compute_mc_paths=compute_mc_paths)
+        cfg.initial_level, cfg.maximum_level, cfg.initial_mc_paths = L0, level_max, N0
+        cfg.control_variates = control_variates or NoControlVariates()
+    else:
+        cfg = ConfigurationMultiLevel(convergence_rates=ConvergenceRates(alpha=rates[0], beta=rates[1], gamma=rates[2]),
+                                      convergence_criteria=ConvergenceCriteria(criteria=criteria, compute_mc_paths=compute_mc_paths),
+                                      initial_level=L0, maximum_level=level_max, initial_mc_paths=N0, seed=None,
+                                      nb_of_processes=1, control_variates=control_variates)
+        eng = MLMCEngine(configuration=cfg, coupling_process=coupling if coupling is not None else FakeCoupling(log))
+        if coupling is not None:
+            coupling.log = log
+    holder["engine"] = eng
+    outcome = "ret"
+    try:
+        eng.price(product if product is not None else identity_product(), rmse=0.01)
+    except Exhausted:
+        outcome = "cont"
+    final = snap_fn(eng) if outcome == "ret" else None
+    return dict(outcome=outcome, reads=reads, final=final, log=log, engine=eng, calls=calls)
